@@ -27,7 +27,7 @@ from ..core import Ctx
 from ..exc import ExcModel, handler_reraises
 from ..loader import AnalysisError
 from ..util import calls, dominated, try_protecting, txt
-from ._g1_helpers import Ev, ExcObj, Obj, Raised
+from ._g1_helpers import anchor_fn, Ev, ExcObj, Obj, Raised
 from .c22 import CONFIG, GATE_FACTORY, KEYMAP, N0, N1, NONCE_CACHE, NOW, ORIGIN, SKEW, _externals, _nonce_oracle, _Rec, _req, _tok
 
 META = {
@@ -55,7 +55,7 @@ PROOFS = {
 }
 
 
-def run(ctx: Ctx) -> None:  # noqa: C901
+def _run_impl(ctx: Ctx, evs: list) -> None:  # noqa: C901
     ctx.explanation = META["text"]
     ctx.not_decided = "gates written by third parties (only the PreconditionGate contract is checked for them); what a method does with an anonymous context."
     ctx.assumptions += [
@@ -64,12 +64,13 @@ def run(ctx: Ctx) -> None:  # noqa: C901
     ]
     ctx.trusted += ["G1 evaluator (sa/props/_g1_helpers.py)", "spec-derived token constructor shared with C22"]
     model = ExcModel(ctx.repo, ctx.res)
-    ra_fi = ctx.fn(RA_AUTH)
-    chain_fi = ctx.fn(CHAIN)
-    chain_auth_fi = ctx.fn(CHAIN_AUTH)
+    ra_fi = anchor_fn(ctx, RA_AUTH)
+    chain_fi = anchor_fn(ctx, CHAIN)
+    chain_auth_fi = anchor_fn(ctx, CHAIN_AUTH)
 
     rec = _Rec()
     ev = Ev(ctx, externals=_externals(rec))
+    evs.append(ev)
     require_all = ev.func(REQUIRE_ALL)
     chain = ev.func(CHAIN)
     factory = ev.func(GATE_FACTORY)
@@ -89,7 +90,7 @@ def run(ctx: Ctx) -> None:  # noqa: C901
         g = ev.call(factory, cfgobj, now=(lambda: NOW))
         gates[mode] = g
         is_gate = isinstance(g, Obj) and g.cls is not None and any(c.fq == GATE_CLS for c in ctx.res.mro(g.cls))
-        ctx.check(is_gate, "RF-WHO", f"proxy-proof-gate-is-a-PreconditionGate:{mode}", ctx.fn(GATE_FACTORY), None,
+        ctx.check(is_gate, "RF-WHO", f"proxy-proof-gate-is-a-PreconditionGate:{mode}", anchor_fn(ctx, GATE_FACTORY), None,
                   ok="proxy_proof_gate returns a PreconditionGate (so chain_authenticate can refuse it)",
                   bad=f"proxy_proof_gate({mode}) returns {g!r}, not a PreconditionGate: chain_authenticate cannot recognise and refuse it")
     if not all(isinstance(g, Obj) and g.cls is not None for g in gates.values()):
@@ -181,8 +182,8 @@ def run(ctx: Ctx) -> None:  # noqa: C901
                   "authenticated (the gate returned verified='false' and require_all never reads it); it must proceed exactly as an anonymous request (authenticated=False, no principal)")
 
     # ------------------------------------------------------------------ RF-DOM: inner only after the gate returned
-    inner_param = [a.arg for a in ctx.fn(REQUIRE_ALL).node.args.args][1:2]
-    gate_param = [a.arg for a in ctx.fn(REQUIRE_ALL).node.args.args][0:1]
+    inner_param = [a.arg for a in anchor_fn(ctx, REQUIRE_ALL).node.args.args][1:2]
+    gate_param = [a.arg for a in anchor_fn(ctx, REQUIRE_ALL).node.args.args][0:1]
     if not inner_param or not gate_param:
         raise AnalysisError("C24: require_all(gate, inner) signature not recognised")
     gate_calls = [c for c in calls(ra_fi) if isinstance(c.func, ast.Name) and c.func.id == gate_param[0]]
@@ -267,3 +268,12 @@ def _ancestors(cfg, node: ast.AST) -> list[ast.AST]:
         out.append(cur)
         cur = cfg.parent.get(id(cur))
     return out
+
+
+def run(ctx: Ctx) -> None:
+    evs: list = []
+    try:
+        _run_impl(ctx, evs)
+    finally:
+        for e in evs:
+            ctx.note(e.stats())
